@@ -53,6 +53,12 @@ def _check_reusable(expr: 'NumberExpr') -> None:
         raise ValueError('Cannot reuse node. Consider making a copy.')
 
 
+def _check_not_consumed(expr: 'NumberExpr') -> None:
+    # After a += b the nodes of b live in the store of a, while b still names its old, emptied store: b is no expression
+    # of its own any more, and an in-place operation on it would rewrite a before anything notices.
+    expr.token_store.get_index(expr.first_token)  # raises if the token is elsewhere
+
+
 def _wrap_paren(add_expr: NumberAddExpr) -> NumberParenExpr:
     left_paren = LeftParen.from_default()
     right_paren = RightParen.from_default()
@@ -104,12 +110,14 @@ class NumberExpr(number_expr.NumberExpr, internal.RWValue[decimal.Decimal]):
         self.raw_number_add_expr = _add_expr_from_value(value)
 
     def wrap_with_parenthesis(self) -> None:
+        _check_not_consumed(self)
         paren_expr = _wrap_paren(self.raw_number_add_expr)
         mul_expr = NumberMulExpr(self.token_store, (paren_expr,), ())
         add_expr = NumberAddExpr(self.token_store, (mul_expr,), ())
         self._number_add_expr = add_expr
 
     def _iaddsub(self: 'NumberExpr', other: 'NumberExpr', op: Literal['+', '-']) -> 'NumberExpr':
+        _check_not_consumed(self)
         if other is self:  # a += a
             other = copy.deepcopy(other)
         _check_reusable(other)
@@ -190,6 +198,7 @@ class NumberExpr(number_expr.NumberExpr, internal.RWValue[decimal.Decimal]):
         return other - self
 
     def _imuldiv(self: 'NumberExpr', other: 'NumberExpr', op: Literal['*', '/']) -> 'NumberExpr':
+        _check_not_consumed(self)
         if other is self:  # a *= a
             other = copy.deepcopy(other)
         _check_reusable(other)
